@@ -106,14 +106,16 @@ type vfDisk struct {
 	sgen     int             // incremented when a snapshot is created or lost
 	past     map[int]*vfHist // histories of earlier generations (readers opened then)
 	// live objects
-	aofW    *AofWriter
-	rdbW    *RdbWriter
-	rdbSR   *vfStepReader
-	readers map[int]*vfDReader
-	nextRid int
-	opIdx   int
-	trace   []string // op lines of the current case (for replays)
-	dead    bool     // storer abandoned after a hang
+	aofW                   *AofWriter
+	rdbW                   *RdbWriter
+	rdbSR                  *vfStepReader
+	readers                map[int]*vfDReader
+	nextRid                int
+	opIdx                  int
+	manySegs, pinnedClosed bool // coverage: the case had >= 3 segments / a reader on a closed segment
+	caseNo                 int
+	trace                  []string // op lines of the current case (for replays)
+	dead                   bool     // storer abandoned after a hang
 }
 
 func vfErrClass(err error) string {
@@ -262,6 +264,12 @@ func (d *vfDisk) dump() {
 	var segs []string
 	for _, a := range ds.aofSegs {
 		segs = append(segs, fmt.Sprintf("%d:%d:%d:%d", a.left, a.rtSize.Load(), a.size, a.Ref()))
+		if a.Ref() > 0 && a.size != -1 {
+			d.pinnedClosed = true // a reader holds a closed segment
+		}
+	}
+	if len(ds.aofSegs) >= 3 {
+		d.manySegs = true
 	}
 	rdb := "-"
 	if ds.rdb != nil {
@@ -877,6 +885,11 @@ func (d *vfDisk) runCase(nops int) {
 }
 
 func (d *vfDisk) finishCase() {
+	d.caseNo++
+	if d.manySegs && d.pinnedClosed {
+		d.s.Distinct(fmt.Sprintf("disk-%d-%d", vfutil.Seed(), d.caseNo))
+	}
+	d.manySegs, d.pinnedClosed = false, false
 	if d.dead {
 		return
 	}
@@ -982,7 +995,7 @@ func TestVerifC05(t *testing.T) {
 			}
 		}
 	}
-	cases := vfutil.Scale(60, 1500)
+	cases := vfutil.Scale(100, 1500)
 	if v, err := strconv.Atoi(os.Getenv("VERIF_CASES")); err == nil {
 		cases = v
 	}
